@@ -222,7 +222,9 @@ def families(tier="quick"):
     fams = []
 
     def add(key, fn, functions, defd=False):
-        fams.append(Family(f"{PID}/{key}", fn, defd=defd, functions=functions))
+        _f = Family(f"{PID}/{key}", fn, defd=defd, functions=functions)
+        _f.abstract = True
+        fams.append(_f)
 
     for d in (2, 3, 4):
         allsys = lanes.ALL_SYS[d]
